@@ -46,8 +46,9 @@ CFG = {
              "MultiOps (own / ref / Result with injected errors) over 0-12 operands; non-trivial = some value with >= 2 partitions"),
     "targets": _T,
     "gaps": [
-        "the 32-bit binary operations, relations, intersection_len and 32-bit MultiOps are a parameter (Ops32) of the treemap model: C11_*_partial theorems assume their specifications (Ops32.Laws), to be discharged by the algebra / multi families (C02, C08, C09) at merge; until then the driver instantiates Ops32 with stand-ins built from the Spec set operations",
-        "BinaryHeap is modelled as 'extract an entry with minimal key'; the executable model picks the first minimal entry",
+        "proved without hypotheses: Result forms of the multi-ops (all Ok -> Ok of the plain multi-op; otherwise the first error, for all four operators), the empty sequence, which operand forms share code (C11_forms). NOT yet proved: the lifting of the four binary operations (6 forms), is_subset/is_superset/is_disjoint, the four *_len and the heap-based / ordered multi-op folds to the Spec set operations on u64 - these are decided by the correspondence check (MODEL = SPEC column on every generated case) only",
+        "the 32-bit binary operations, relations, intersection_len and 32-bit MultiOps are a parameter (Ops32) of the treemap model, to be instantiated by the algebra / multi families (C02, C08, C09) at merge; until then the driver instantiates Ops32 with stand-ins built from the Spec set operations (clearly marked in Driver/TreemapAlg.lean), so the correspondence exercises the partition-level logic of ops.rs / cmp.rs / multiops.rs, not the 32-bit kernels",
+        "BinaryHeap is modelled as 'extract an entry with minimal key'; the executable model picks the first minimal entry; mergeLoop is fuelled by the number of partitions (never exhausted early - not yet proved)",
     ],
     "assumptions": [
         "treemap algebra correspondence bounds: <= 5 partitions (keys 0,1,3,4,u32::MAX), operands <= ~10^5 elements, multi-op sequences <= 14 items",
